@@ -28,3 +28,6 @@ mod c08;
 
 #[cfg(all(kani, any(feature = "c03", feature = "c01", feature = "c07")))]
 mod c03;
+
+#[cfg(all(kani, feature = "c19"))]
+mod c19;
